@@ -94,7 +94,7 @@ def main():
                 for root in (wt, clean):
                     e2 = dict(env, SKA=os.path.join(root, 'target', 'release', 'ska'))
                     e2.pop('VERIF_REPO', None)
-                    q = subprocess.run(['bash', demo, root], cwd=wt, env=e2, capture_output=True, text=True)
+                    q = subprocess.run(['bash', demo, root], cwd=root, env=e2, capture_output=True, text=True)
                     res.append(q.returncode)
             print('DEMO %s: mutated exit=%d unmodified exit=%d -> %s' % (tag, res[0], res[1], 'confirmed' if res[0] != 0 and res[1] == 0 else 'NOT CONFIRMED'))
         for pid in ids:
